@@ -1,4 +1,5 @@
 import WindVerif.Proofs.Sorted
+import WindVerif.Proofs.SortedCopy
 /-!
 # C09 — SortedSet / SortedMap stay sorted, duplicate-free and equivalent to set / dict
 
@@ -174,5 +175,22 @@ example : Strict [1, 3] := by simp [Strict]
 example : MapWf ⟨[1, 2], [7, 6]⟩ := by simp [MapWf, Strict]
 example : mapLookup (mapInit [(1, 5), (2, 6), (1, 7)]) 1 = some 7 := by
   rw [WindVerif.Sorted.mapInit_lookup]; decide
+
+/-! ### Copy-construction: `SortedSet(another sorted set)` / `SortedMap(another sorted map)` -/
+
+/-- constructing a sorted set from the content of a sorted set gives that content again -/
+theorem setInit_of_strict (s : List Int) (h : Strict s) : setInit s = s := by
+  first | exact WindVerif.Sorted.setInit_of_strict .. | (apply WindVerif.Sorted.setInit_of_strict <;> assumption)
+
+/-- constructing a sorted map from a well-formed sorted map (through `dict(m)`, i.e. its items) gives that map again -/
+theorem mapInit_items (m : SMap) (h : MapWf m) : mapInit (mapItems m) = m := by
+  first | exact WindVerif.Sorted.mapInit_items .. | (apply WindVerif.Sorted.mapInit_items <;> assumption)
+
+/-- non-vacuity: a copy of the map built from unsorted pairs with a repeated key -/
+example : mapInit (mapItems (mapInit [(5, 1), (2, 7), (5, 3)])) = mapInit [(5, 1), (2, 7), (5, 3)] :=
+  mapInit_items _ (mapInit_wf _)
+
+example : Strict (setInit [3, 1, 3, 2]) ∧ setInit (setInit [3, 1, 3, 2]) = setInit [3, 1, 3, 2] :=
+  ⟨setInit_strict _, setInit_of_strict _ (setInit_strict _)⟩
 
 end WindVerif.C09
